@@ -127,7 +127,7 @@ Theorem astep_ledger : forall (w w' : world) op o, arr_inv w -> aop_ok op -> ast
   arr_inv w' /\ forall k, ~ In k (aidx op) -> ob w' k = ob w k.
 Proof.
   intros w w' op o Hi Hok H. pose proof Hi as (Hl & Hc).
-  destruct op as [i n init|i j|i j|i j|i j|i j|i j|i x|i k0|i|i|i|i n init|i n|i n|i n|i|i n]; cbn [astep aop_ok] in *.
+  destruct op as [i n init|i j|i j|i j|i j|i j|i j|i x|i k0|i|i|i|i n init|i n|i n|i n|i|i n|i k1 k2|i]; cbn [astep aop_ok] in *.
   - (* ANewSized *)
     apply bind_ok in H as (h1 & E1 & H). apply bind_ok in H as (w2 & E2 & H). injection H as <- <-.
     destruct (arr_construct_ledger w w2 i h1 n init Hi E1 E2) as (Hi2 & Hf). split; [assumption|].
@@ -260,6 +260,16 @@ Proof.
     split; [split|frame1].
     + apply ledger_inplace; auto.
     + cbn [ob]. apply cap0_upd; [assumption|]. cbn [cap blk]. apply Hc.
+  - (* ASwap: two reads, two in-place writes *)
+    destruct ((k1 <? size (ob w i)) && (k2 <? size (ob w i))); [|injection H as <- <-; split; [assumption|reflexivity]].
+    apply bind_ok in H as (x & _ & H). apply bind_ok in H as (y & _ & H).
+    apply bind_ok in H as (h1 & E1 & H). apply bind_ok in H as (h2 & E2 & H). injection H as <- <-.
+    apply wr1_inv in E1 as (Hn1 & Ha1). apply wr1_inv in E2 as (Hn2 & Ha2).
+    split; [split|reflexivity].
+    + apply (ledger_inv_ext w); cbn [hp ob]; [congruence | intros x0; now rewrite Ha2, Ha1 | reflexivity | assumption].
+    + exact Hc.
+  - (* AIter: read only *)
+    apply bind_ok in H as (c & _ & H). injection H as <- <-. split; [assumption|reflexivity].
 Qed.
 
 Lemma arr_inv0 : arr_inv (@world0 A).
